@@ -247,6 +247,20 @@ func stubErrorf(t *Thread, fn *ssa.Function, args []Value, pos token.Pos) Value 
 }
 
 func stubSprintf(t *Thread, fn *ssa.Function, args []Value, pos token.Pos) Value {
+	// Sprintf("%T", x): the dynamic type's name as fmt prints it (package-qualified by package NAME)
+	if f, ok := args[0].(*Term); ok && f.IsConst && t.e.eng.strOf(uint32(f.C)) == "%T" {
+		if sl, ok := t.conc(args[1]).(Slice); ok && sl.n == 1 {
+			if x, ok := t.conc(sl.cells[0].v).(Iface); ok {
+				name := "<nil>"
+				if x.t != nil {
+					name = types.TypeString(x.t, func(p *types.Package) string { return p.Name() })
+					name = strings.ReplaceAll(name, "interface{}", "interface {}")
+					name = strings.ReplaceAll(name, "any", "interface {}")
+				}
+				return t.e.ts.BV(32, uint64(t.e.eng.intern(name)))
+			}
+		}
+	}
 	return t.e.freshStr("fmtstr")
 }
 
